@@ -176,6 +176,16 @@ def run(tier="quick", seed=0):
         if bad:
             failures.append({"key": "discovery:" + str(sig)[:60], "description": bad,
                              "script": script_header() + f"sys.path.insert(0, '/verif')\nfrom pybound.c19 import scenario\nbad, sig = scenario({s})\nassert not bad, bad\n"})
+    # discovery with a user-level ~/.signacrc present (shared with C20: get_project / init_project open a project by what the project declares)
+    try:
+        from .c20 import user_config_check
+        uc = [x for x in user_config_check() if x[0].split(":")[-1] in ("get_project", "init_project", "crashed")]
+    except BaseException as e:
+        uc = [("user-config:raised", f"user_config_check raised {type(e).__name__}: {str(e)[:200]}")]
+    evals += 3
+    for key, desc in uc[:2]:
+        failures.append({"key": key, "description": desc,
+                         "script": script_header() + "sys.path.insert(0, '/verif')\nfrom pybound.c20 import user_config_check\nr = user_config_check()\nassert not r, r\n"})
     return {"scope": "generated directory trees to depth 5 mixing plain directories, projects, projects nested in plain sub-directories and inside job directories; every directory "
                      "queried by absolute path and by a relative path from its parent; stray signac.rc files that are no legacy configuration; get_project (search on/off), get_job, init_project on existing projects, non-existent paths",
             "evaluations": evals, "distinct_nontrivial": len(distinct), "rule": "a case is one generated tree with all its directories queried; distinct by (number of projects, number of directories)",
